@@ -549,6 +549,12 @@ def postprocess_apply(ex, E, Cin, names, rc_arg, rn_arg, node):
     if ex.decide(z3.Not(rn) if not isinstance(rn, bool) else (not rn), "postprocess.rrn"):
         E2, names2 = RemoveRedundantNames().apply(ex, [E1, names2], {}, node)
     if ex.decide(has_duplicate_rows(ctx, E2), "postprocess.dup_rows"):
+        # name the two equal rows (skolem constants); `pair_hints` of the contract under verification are tautologies
+        # (fresh boolean == ground term) that let facts about the rows they came from be instantiated
+        t0, s0 = ctx.int("dup_t"), ctx.int("dup_s")
+        ctx.assume(z3.And(0 <= t0, t0 < s0, s0 < E2.n, meq(E2.row(t0), E2.row(s0), E2.D)))
+        for h in getattr(ex, "pair_hints", []):
+            ctx.assume(ctx.bool("hint") == h(t0, s0))
         raise_("PolynomialConstructionError", node, "duplicate rows")
     return E2, C1, names2
 
